@@ -14,6 +14,8 @@ pub enum Op {
     Trigger,
     Flush,
     Advance(i64),
+    /// reopen_output() with the current file in place
+    Reopen,
 }
 
 pub fn gen_crit(rng: &mut Rng, size_only: bool) -> Crit {
@@ -149,7 +151,14 @@ pub fn run_case(ctx: &mut CaseCtx) -> CaseResult {
         let op = match rng.below(20) {
             0..=11 => Op::Write(*rng.pick(&LEVELS), gen_len(rng, cfg.crit, cfg.wmode)),
             12..=13 => Op::Trigger,
-            14..=16 => Op::Flush,
+            14..=15 => Op::Flush,
+            16 => {
+                if rng.chance(1, 3) {
+                    Op::Reopen
+                } else {
+                    Op::Flush
+                }
+            }
             _ => Op::Advance(*rng.pick(&advances)),
         };
         ops.push(op);
@@ -322,6 +331,18 @@ pub fn run_case(ctx: &mut CaseCtx) -> CaseResult {
                     ok = false;
                     break;
                 }
+            }
+            Op::Reopen => {
+                if let Err(e) = driver.reopen() {
+                    res.violate(
+                        "reopen-error",
+                        format!("C01/reopen-error/naming={}", cfg.names.naming.label()),
+                        format!("op {i}: reopen_output with the file in place returned {e}"),
+                    );
+                    ok = false;
+                    break;
+                }
+                res.count("reopen_with_file_in_place", 1);
             }
             Op::Advance(d) => {
                 if virtual_clock {
